@@ -5,6 +5,7 @@
 From V.lib Require Import Base.
 From V.c04 Require Import C04Model C04AsmModel C04ReaderProofs C04ContainerProofs C04AsmProofs.
 From V.c04 Require Import C04AllocModel C04AllocProofs.
+From V.c04 Require Import C04MfraModel C04MfraProofs.
 
 (* ---- (a) bits.FixedSliceReader: every method, every reachable state, under the caller guards ---- *)
 Theorem C04_reader_safe : forall s o, rinv s = true -> rguard s o = true ->
@@ -365,3 +366,56 @@ Example ex_senc_two_phase :
                  1;2;3;4;5;6;7;8; 0;1; 0;1; 0;0;0;2;  1;2;3;4;5;6;7;8; 0;1; 0;1; 0;0;0;2] 0
   = Some (Ok (true, true, 2, 2, 160, 5)).
 Proof. vm_compute. reflexivity. Qed.
+
+(* ---- (e) the trailing index: File.findAndReadMfra over extended shapes (any mfro position and ParentSize:
+        absent, too small, too large, pointing at a non-mfra box or inside a box; an mfra at top level or inside
+        an mdat payload; any number of tfra boxes with any entry counts, track ids and moof offsets) ---- *)
+Theorem C04_mfra_lookback_total : forall boxes : list (xshape * N),
+  match find_and_read_mfra_x true boxes with Panic => False | OutOfFuel => False | _ => True end.
+Proof. exact find_mfra_x_np. Qed.
+Print Assumptions C04_mfra_lookback_total.
+
+(* the comparison of a later tfra with the first one: what Go does today for unequal entry counts is an error
+   BEFORE the offset loop; the loop indexes the first tfra and stays in range only because of that check *)
+Theorem C04_mfra_tfras_loop_spec : forall first rest,
+  tfras_loop first rest = if tfras_consistent first rest then Ok tt else Err.
+Proof. exact tfras_loop_spec. Qed.
+Print Assumptions C04_mfra_tfras_loop_spec.
+
+Theorem C04_mfra_offset_loop_in_range : forall other first j,
+  (j + length other <= length first)%nat ->
+  match offs_loop other first j with Panic => False | OutOfFuel => False | _ => True end.
+Proof. exact offs_loop_np. Qed.
+Print Assumptions C04_mfra_offset_loop_in_range.
+
+Theorem C04_mfra_length_check_needed : forall common extra more,
+  offs_loop (common ++ extra :: more) common 0 = Panic.
+Proof. intros. apply offs_loop_longer_panics. reflexivity. Qed.
+Print Assumptions C04_mfra_length_check_needed.
+
+Theorem C04_assembly_x_total : forall (o : opts) (boxes : list (xshape * N)),
+  match assemble_x true o boxes with
+  | Ok f => no_panic (info_file true f) /\ no_panic (encode_file true false f) /\ no_panic (encode_file true true f)
+  | Err => True
+  | Panic => False
+  | OutOfFuel => False
+  end.
+Proof. exact assembly_x_total. Qed.
+Print Assumptions C04_assembly_x_total.
+
+(* on the shapes of C04AsmModel (boxes of positive size) the extended model is the old one *)
+Theorem C04_assembly_x_embed : forall o boxes, Forall (fun b => 0 < snd b) boxes ->
+  assemble_x true o (embed boxes) = assemble true o boxes.
+Proof. exact assemble_x_embed. Qed.
+Print Assumptions C04_assembly_x_embed.
+
+(* the 107-byte file mfra{tfra(id 1, 0 entries), tfra(id 2, 1 entry), mfro(107)} under the ISM flag is an error;
+   an mfra found through a stand-alone mfro, or inside an mdat, is used; a wrong ParentSize is an error *)
+Example ex_mfra_two_tfras :
+  assemble_x true oISMx [(XMfra [(1, []); (2, [0])] (Some 107), 107)] = Err.
+Proof. vm_compute. reflexivity. Qed.
+Example ex_mfra_standalone_mfro :
+  find_and_read_mfra_x true [(XTop (TMoof []), 24); (XMfra [(1, [0])] None, 51); (XMfro 67, 16)] = Ok (Some [0]) /\
+  find_and_read_mfra_x true [(XTop (TMoof []), 24); (XMdatMfra 4 [(1, [0])] (Some 67), 79)] = Ok (Some [0]) /\
+  find_and_read_mfra_x true [(XTop (TMoof []), 24); (XMfra [(1, [0])] (Some 66), 67)] = Err.
+Proof. repeat split; vm_compute; reflexivity. Qed.
